@@ -14,7 +14,7 @@
    log-replication defects.  `classes h` = (double vote, stale vote counted, ack from diverged log, old-term
    commit, ack below voted term) are the decidable defect classes of a history. *)
 From Coq Require Import NArith List.
-From Agdb Require Import Raft RaftWitness RaftProofs RaftInv.
+From Agdb Require Import Raft RaftWitness RaftProofs RaftInv RaftLog RaftLogProofs.
 Import ListNotations.
 Open Scope N_scope.
 
@@ -70,3 +70,25 @@ Theorem C28c_refuted_ack_below_vote :
     election_safety (c_hist c) /\ classes (c_hist c) = (false, false, false, false, true) /\ ~ committed_agree c.
 Proof. exact C28c_refuted_ack_below_vote. Qed.
 Print Assumptions C28c_refuted_ack_below_vote.
+
+(* ------------------------------------------------------------------ a THIRD log-replication class (RaftLog.v)
+   `commit_noquorum_b rv size evs` (KnownClass commit-without-quorum): a Leader raised its commit index over an
+   index at which fewer than size/2+1 nodes of its term hold its entry — commit() counts rows of the peer table
+   that are not acknowledgements of the current term (rows are never reset on election, update_node writes them
+   from the peer's own requests, response() accepts acknowledgements of any term).
+   4 (every revision): a 5-node history with one leader per term in which NONE of the five classes of `classes`
+   occurs ends with two nodes that have committed different entries at index 2 (corpus/C28/commit_noquorum.txt). *)
+Theorem C28c_refuted_commit_noquorum : forall rv,
+  exists size evs, let c := run rv size evs in
+    size <> 1 /\ election_safety (c_hist c) /\ classes (c_hist c) = (false, false, false, false, false) /\
+    commit_noquorum_b rv size evs = true /\ ~ committed_agree c.
+Proof. exact RaftLogProofs.C28c_refuted_commit_noquorum. Qed.
+Print Assumptions C28c_refuted_commit_noquorum.
+
+(* hence "no acknowledgement from a diverged log and no old-term commit" does NOT imply (c) *)
+Theorem C28c_two_classes_not_enough : forall rv,
+  ~ (forall size evs, size <> 1 ->
+       ack_diverged_b (c_hist (run rv size evs)) = false -> old_term_commit_b (c_hist (run rv size evs)) = false ->
+       committed_agree (run rv size evs)).
+Proof. exact two_classes_not_enough_C28c. Qed.
+Print Assumptions C28c_two_classes_not_enough.
